@@ -22,7 +22,7 @@ MODE_FILTERS = {
     "derived": lambda t: any(_DERIVED.search(l) for l in t[1:]),
     "bounds":  lambda t: any(_BIGNUM.search(l) for l in t[1:]) or len(t) <= 5,
     "sort":    lambda t: any("sort" in l for l in t[1:]),
-    "growth":  lambda t: sum(1 for l in t[1:] if re.search(r"\b(add|add_last|add_first|push|enqueue|enq)\b", l)) >= 6 or any("trim" in l for l in t[1:]),
+    "growth":  lambda t: sum(1 for l in t[1:] if re.search(r"\b(add|add_last|add_first|push|enqueue|enq)\b", l)) >= 6 or any("trim" in l for l in t[1:]) or re.search(r"cap=\d{3,}", t[0]) is not None,
 }
 
 def generate(engine, rng, tier, mode="default"):
